@@ -41,6 +41,14 @@ Inductive rstat := ROk | REof | RErrEmpty.
 
 Definition pad_to (n : nat) (b : bytes) : bytes := b ++ repeat 0%N (n - length b).
 
+(** [length bs < n], looking at no more than [n] elements (the remaining log can be megabytes long) *)
+Fixpoint shorter (bs : bytes) (n : nat) : bool :=
+  match n, bs with
+  | O, _ => false
+  | S _, [] => true
+  | S n', _ :: t => shorter t n'
+  end.
+
 Definition rd (k : rkind) (n : nat) (bs : bytes) : bytes * bytes * rstat :=
   match k with
   | RFile =>
@@ -52,7 +60,7 @@ Definition rd (k : rkind) (n : nat) (bs : bytes) : bytes * bytes * rstat :=
   | RGroup =>
     match n with
     | O => ([], bs, RErrEmpty)
-    | _ => if Nat.ltb (length bs) n then ([], [], REof)   (* buffer contents are not used on error *)
+    | _ => if shorter bs n then ([], [], REof)   (* buffer contents are not used on error *)
            else (firstn n bs, skipn n bs, ROk)
     end
   end.
